@@ -526,6 +526,11 @@ def visibleRoot {ι : Type} (d : SchemaDef ι) (F : List String) : Option String
   | some n => if subsetOf (d.featuresOf n) F then some n else none
   | none => none
 
+/-- `DirectiveDefinition.VisibleArguments(features)` (fix C13/05): a directive argument whose
+    type's required features are not all enabled is treated as undefined. -/
+def visibleDirective {ι : Type} (d : SchemaDef ι) (F : List String) (dd : DirectiveDef ι) : DirectiveDef ι :=
+  { dd with args := dd.args.filter (fun a => subsetOf (d.featuresOf a.type.ref.leaf) F) }
+
 /-- **The model of the standard introspection query**: `__schema { queryType mutationType
     subscriptionType types directives }` for a request with feature set `F`, list order normalised
     where the Go side has none (the `types` list and `possibleTypes` of interfaces are sorted by
@@ -535,7 +540,7 @@ def introspect (S : Schema) (F : List String) : IntroData :=
   { queryType := d.query, mutationType := visibleRoot d F d.mutation,
     subscriptionType := visibleRoot d F d.subscription,
     types := sortTypes (((S.namedTypes.filterMap d.lookup).filter (fun t => subsetOf t.feat.keys F)).map (typeData S F)),
-    directives := d.directives.map (directiveData d) }
+    directives := d.directives.map (fun dd => directiveData d (visibleDirective d F dd)) }
 
 /-! ## Acceptance: the invariant of `schema.New`'s result that introspection relies on -/
 
@@ -621,8 +626,9 @@ def featuresOk (S : Schema) : Bool :=
      && (t.kind != .union || t.members.all (fun m => subsetOf (d.featuresOf m) t.feat.keys))
      && (t.kind != .inputObject || t.inputs.all (fun a => subsetOf (d.featuresOf a.type.ref.leaf) t.feat.keys))))
 
-/-- No directive argument has a type that requires features. `schema.New` does **not** enforce
-    this (open finding F-10g): it is a separate hypothesis of `visible_closed`. -/
+/-- No directive argument has a type that requires features. `schema.New` does not enforce this;
+    before fix C13/05 (`VisibleArguments`) such an argument was listed for every request (finding
+    F-10g, witness in Props.lean). No theorem needs this predicate any more. -/
 def dirArgsUngated {ι : Type} (d : SchemaDef ι) : Bool :=
   d.directives.all (fun dd => dd.args.all (fun a => d.featuresOf a.type.ref.leaf == []))
 
